@@ -444,6 +444,14 @@ def check_case(rec: Rec, case: dict) -> None:
             raise Violation("method-table", f"{where}: method {r['method']}, the documented table gives {e['method']}; {desc}")
         if r["body"] != e["body"]:
             raise Violation("body-table", f"{where}: body {r['body']!r}, expected {e['body']!r}; {desc}")
+        if not has_body and i > 0:
+            # a request that never had a body does not grow the headers of one on its way through the redirects
+            # (what the first request carried by itself - aiohttp gives a bodiless POST a Content-Type - is not the subject)
+            first = {k.lower() for k, _v in log[0]["headers"]} if log[0]["method"] == r["method"] else set()
+            grown = [(k, v) for k, v in r["headers"] if k.lower() not in first and (k.lower() in ("content-type", "content-encoding", "transfer-encoding")
+                     or (k.lower() == "content-length" and r["method"] in ("GET", "HEAD")))]
+            if grown:
+                raise Violation("body-table/entity-headers-on-bodiless-request", f"{where}: the caller sent no body, yet this request carries {grown}; {desc}")
         if host and host[0].split(":")[0] != r["origin"][1]:
             raise Violation("host-header", f"{where}: Host header {host[0]!r}; {desc}")
 
